@@ -35,11 +35,12 @@ TNext == Consume /\
     \/ (E.a = "getrow"  /\ GetRow(E.i, E.ik, E.re))
     \/ (E.a = "set2"    /\ Set2(E.i, E.ik, E.j, E.jk, E.v, E.re, E.cnd))
     \/ (E.a = "copyrow" /\ CopyRow(E.i, E.j, E.jk))
+    \/ (E.a = "copyrow2" /\ CopyRowBoth(E.j, E.jk))
 
 TSpec == TInit /\ [][TNext]_tvars
 
 \* the trace specification is total on recorded histories: no event is left unexamined because its action is disabled
-Inv_Total  == l < Len(Evs) => /\ E.a \in {"get", "set", "getb", "setb", "get2", "getrow", "set2", "copyrow"}
+Inv_Total  == l < Len(Evs) => /\ E.a \in {"get", "set", "getb", "setb", "get2", "getrow", "set2", "copyrow", "copyrow2"}
                               /\ ReOk(E.re, E.i, E.ik, E.j, E.jk)
                               /\ (E.a \in {"get", "set", "getb", "setb"} <=> dim = 1)
                               /\ (E.a = "copyrow" => E.i \in 0..(Len(arr) - 1))
